@@ -311,6 +311,10 @@ func c09FailedReconnect(ctx *Ctx, i int, drv int, closeDuring bool) {
 		a.c2.Close()
 		w.pool.CloseRemote(a.poolSide)
 	}
+	// the registry's history as the model's events (connections: A = 1, h2's = 2, B = 3); the
+	// pool registers a host on its connection BEFORE it stores the record, so the failed attempt
+	// is a registration as far as the registry goes
+	items := []string{fmt.Sprintf("EvReg %s 1 1", cN(w.t.id("h1"))), fmt.Sprintf("EvReg %s 2 %s", cN(w.t.id("h2")), cNat(w.pool.NumRemotes()))}
 	fired := false
 	hs.mu.Lock()
 	hs.hook = func(n store.Node) error {
@@ -318,8 +322,10 @@ func c09FailedReconnect(ctx *Ctx, i int, drv int, closeDuring bool) {
 			return nil
 		}
 		fired = true
+		items = append(items, fmt.Sprintf("EvReg %s 3 %s", cN(w.t.id("h1")), cNat(w.pool.NumRemotes())))
 		if closeDuring {
 			closeA()
+			items = append(items, fmt.Sprintf("EvClose 1 %s", cNat(w.pool.NumRemotes())))
 		}
 		return errors.New("write failed: no space left on device")
 	}
@@ -328,6 +334,7 @@ func c09FailedReconnect(ctx *Ctx, i int, drv int, closeDuring bool) {
 	errB := w.connectOn(b, "h1")
 	if !closeDuring {
 		closeA()
+		items = append(items, fmt.Sprintf("EvClose 1 %s", cNat(w.pool.NumRemotes())))
 	}
 	n := w.pool.NumRemotes()
 	w.takeCalls()
@@ -367,8 +374,89 @@ func c09FailedReconnect(ctx *Ctx, i int, drv int, closeDuring bool) {
 	if n < 1 || n > 2 {
 		mon = append(mon, fmt.Sprintf("c09-count: the pool counts %d connected hosts; h2 is connected, h1 at most once", n))
 	}
-	ctx.Emit(Case{I: i, Kind: "failed-reconnect-" + driverNames[drv], Desc: map[string]interface{}{"old_connection_closed": when, "reconnect_error": fmt.Sprint(errB), "store_failed": fired,
+	var calledConns []int
+	for _, h := range where {
+		switch h {
+		case "h1#0":
+			calledConns = append(calledConns, 1)
+		case "h2#0":
+			calledConns = append(calledConns, 2)
+		case "h1#1":
+			calledConns = append(calledConns, 3)
+		default:
+			calledConns = append(calledConns, 99)
+		}
+	}
+	items = append(items, "EvProbe "+cNs(calledConns))
+	coq := ""
+	if fired {
+		coq = fmt.Sprintf("{| c9_evs := %s |}", cList(items))
+	}
+	ctx.Emit(Case{I: i, Kind: "failed-reconnect-" + driverNames[drv], Coq: coq, Desc: map[string]interface{}{"old_connection_closed": when, "reconnect_error": fmt.Sprint(errB), "store_failed": fired,
 		"remotes_after": n, "calls": where}, Monitor: mon})
+}
+
+// c09OldConnectionKeepalive: host H registers on connection A, then again on B (A stays open);
+// B closes: H's most recent registration is gone, so H cannot be instructed; H then sends a
+// keep-alive over A, which is still open. A keep-alive is not a registration: H stays
+// uninstructable until it registers again, and is not counted.
+func c09OldConnectionKeepalive(ctx *Ctx, i int, drv int) {
+	w := newWorld(worldCfg{Drv: drv, Price: "1000", IntervalNs: 60e9, Settle: true})
+	defer w.Close()
+	w.aliasAll()
+	var mon []string
+	if _, err := w.connect("c1", false, "geth", "", ""); err != nil {
+		fatal("%v", err)
+	}
+	a := w.newConn("h1", "10.0.0.5:1")
+	if err := w.connectOn(a, "h1"); err != nil {
+		fatal("connect h1 on A: %v", err)
+	}
+	items := []string{fmt.Sprintf("EvReg %s 1 %s", cN(w.t.id("h1")), cNat(w.pool.NumRemotes()))}
+	b := w.newConn("h1", "10.0.0.5:2")
+	if err := w.connectOn(b, "h1"); err != nil {
+		fatal("connect h1 on B: %v", err)
+	}
+	items = append(items, fmt.Sprintf("EvReg %s 2 %s", cN(w.t.id("h1")), cNat(w.pool.NumRemotes())))
+	b.c1.Close()
+	b.c2.Close()
+	w.pool.CloseRemote(b.poolSide)
+	items = append(items, fmt.Sprintf("EvClose 2 %s", cNat(w.pool.NumRemotes())))
+	var results []string
+	for k := 0; k < 2; k++ {
+		id := nodeIDOf("h1")
+		req := pool.UpdateRequest{BlockNumber: uint64(10 + k)}
+		nonce := w.nextNonce()
+		sig := w.sign(keyFor("h1"), "vipnode_update", id, nonce, req)
+		var resp pool.UpdateResponse
+		cctx, cancel := context.WithTimeout(context.Background(), 8*time.Second)
+		err := a.cliSide.Call(cctx, &resp, "vipnode_update", sig, id, nonce, req)
+		cancel()
+		results = append(results, fmt.Sprint(err))
+	}
+	n := w.pool.NumRemotes()
+	w.takeCalls()
+	cctx, cancel := context.WithTimeout(context.Background(), 8*time.Second)
+	r, err := w.peerCtx(cctx, "c1", 2, "")
+	cancel()
+	var where []string
+	var called []int
+	for _, c := range w.takeCalls() {
+		if c.Method == "whitelist" {
+			where = append(where, c.Host)
+			called = append(called, map[string]int{"h1#0": 1, "h1#1": 2}[c.Host])
+		}
+	}
+	items = append(items, "EvProbe "+cNs(called))
+	got := 0
+	if r != nil {
+		got = len(r.Peers)
+	}
+	if n != 0 || len(where) > 0 || got > 0 {
+		mon = append(mon, fmt.Sprintf("c09-old-connection-revived: host h1 registered on connection A, then on B; B closed; h1 then sent keep-alives over A (results %v). The pool counts %d connected hosts, a peer request called %v and returned %d hosts (error %v): the connection h1 most recently registered on is closed, so h1 cannot be instructed", results, n, where, got, err))
+	}
+	ctx.Emit(Case{I: i, Kind: "old-connection-keepalive-" + driverNames[drv], Coq: fmt.Sprintf("{| c9_evs := %s |}", cList(items)),
+		Desc: map[string]interface{}{"keepalives_over_A": results, "remotes_after": n, "calls": where}, Monitor: mon})
 }
 
 // c09CloseWhileOwnRequestRuns: host B's connection ends while a request B itself sent over it is
